@@ -204,12 +204,20 @@ class RemoveUnusedVariables(VisitorBasedCodemodCommand, NameResolutionMixin):
             #        return node.with_changes(elements = new_elements)
             #    return None
             case cst.Name():
-                if self.find_accesses(node):
+                if self.find_accesses(node) or self._is_read_in_enclosed_scope(node):
                     return node
                 else:
                     return None
             case _:
                 return node
+
+    def _is_read_in_enclosed_scope(self, node: cst.Name) -> bool:
+        # A read from a lambda, comprehension or inner function is recorded on
+        # that scope, not on the one the assignment lives in
+        scope = self.get_metadata(ScopeProvider, node, None)
+        return scope is not None and any(
+            assignment.references for assignment in scope[node.value]
+        )
 
     def leave_Assign(
         self, original_node: cst.Assign, updated_node: cst.Assign
